@@ -139,8 +139,24 @@ def space_case(draw):
             "follow": draw(follow_ups(alts, alts))}
 
 
+@st.composite
+def identity_case(draw):
+    """neutral elements (a+0, 0+a, a-0, a*1, 1*a, a/1): a result that is 'the same quantity' must still be a new object"""
+    dim = draw(st.sampled_from(G.DIMS))
+    ut = draw(G.expr_of_dim(dim))
+    a = draw(operand(unit_tree=ut))
+    op, num, swap = draw(st.sampled_from([("+", 0, False), ("+", 0.0, True), ("-", 0, False), ("*", 1, False), ("*", 1.0, True),
+                                          ("/", 1, False), ("+", 0.0, False), ("*", 1, True)]))
+    alts = [R.render(draw(G.expr_of_dim(dim))) for _ in range(2)]
+    first = ["r", draw(st.sampled_from(["to", "abse", "rele", "rebase"])), None]
+    first[2] = {"to": alts[0], "abse": 0.5, "rele": 5.0, "rebase": None}[first[1]]
+    return {"kind": "binary", "cls": "number", "op": op, "a": a,
+            "b": {"x": num, "u": None, "e": None, "dec": False, "plain": True}, "swap": swap,
+            "follow": [first] + draw(follow_ups(alts, alts))}
+
+
 def strategies(tier):
-    return {"binary": (binary_case(), 2500, 60000), "unary": (unary_case(), 2000, 40000),
+    return {"identity": (identity_case(), 600, 12000), "binary": (binary_case(), 2500, 60000), "unary": (unary_case(), 2000, 40000),
             "space": (space_case(), 500, 10000)}
 
 
@@ -184,7 +200,8 @@ def snap(q):
     from scinumtools.units import Quantity
     if not isinstance(q, Quantity):
         return ("plain", copy.deepcopy(q))
-    return (_canon_val(copy.deepcopy(q.value())), q.units(), _canon_val(copy.deepcopy(q.abse())))
+    # units as reported AND the exponents behind them (repr of the base units): the rendered string is cached
+    return (_canon_val(copy.deepcopy(q.value())), (q.units(), repr(q.baseunits)), _canon_val(copy.deepcopy(q.abse())))
 
 
 def diff(before, q):
